@@ -51,11 +51,11 @@ the i-th entry popped on a socket is the i-th half sent on it, and the i-th
 result of the receiver is that entry with only the qubit id rebound. -/
 theorem fifo_pairing (evs : List Ev) (st : State) (obs : List Obs) (h : run init evs = .ok (st, obs)) (n s : Nat) :
     st.sent n s = st.popped n s ++ st.recvEpr n s ∧
-    (∀ i m, (st.popped n s)[i]? = some m → (st.sent n s)[i]? = some m) ∧
-    (∀ i r, (st.received n s)[i]? = some r →
-      ∃ m qid, (st.sent n s)[i]? = some m ∧ r = (rebind m.info qid, m.half)) := by
+    (∀ (i : Nat) (m : EntMsg), (st.popped n s)[i]? = some m → (st.sent n s)[i]? = some m) ∧
+    (∀ (i : Nat) (r : EntInfo × Option Nat), (st.received n s)[i]? = some r →
+      ∃ (m : EntMsg) (qid : Nat), (st.sent n s)[i]? = some m ∧ r = (rebind m.info qid, m.half)) := by
   have hi := inv_run inv_init h
-  have hpre : ∀ i m, (st.popped n s)[i]? = some m → (st.sent n s)[i]? = some m := by
+  have hpre : ∀ (i : Nat) (m : EntMsg), (st.popped n s)[i]? = some m → (st.sent n s)[i]? = some m := by
     intro i m hm
     rw [hi.fifo n s, List.getElem?_append_left (List.getElem?_eq_some_iff.mp hm).1]
     exact hm
@@ -84,14 +84,17 @@ example : ∃ st obs, run init [.pair 0 1 0 0 .K 0 0 {}, .recv 1 0 5, .recv 1 0 
 
 /-! ## T08.1  counts -/
 
-/-- In every history: the creator's result list for a key grows by exactly one
-per `cmd_epr`, the receiver's by exactly one per successful poll; with matched
-sockets the polls that found something never outnumber the pairs created for
-that socket, and the difference is exactly what is still queued.  Hence a
-request of n pairs (n `cmd_epr` at the creator, n successful polls at the
-receiver) yields exactly n results on each side and leaves the queue as it
-found it. -/
-theorem counts (cfg : Cfg) (hm : Matched cfg) (evs : List Ev) (st : State) (obs : List Obs)
+/-- FULL STATEMENT (T08.1): "every request of n pairs yields exactly n results on each side" — i.e. the counting
+below AND termination of every request.  Termination is FALSE of the code when two create-and-keep requests
+cross (`crossing_sends_deadlock` at the end of this file, finding F8; replayed on the implementation on every run
+under the key `crossing-sends-deadlock`), so what is proved is the counting (safety) part, for every history:
+the creator's result list for a key grows by exactly one per `cmd_epr`, the receiver's by exactly one per
+successful poll; with matched sockets the polls that found something never outnumber the pairs created for that
+socket, and the difference is exactly what is still queued.  Hence a request of n pairs (n `cmd_epr` at the
+creator, n successful polls at the receiver) yields exactly n results on each side and leaves the queue as it
+found it; and by `create_never_blocks` / `recv_progress` nothing inside the model stops a request short of n.
+Missing for the full statement: atomicity of `send_epr_half` with respect to a send in the opposite direction. -/
+theorem counts_partial (cfg : Cfg) (hm : Matched cfg) (evs : List Ev) (st : State) (obs : List Obs)
     (hq : ∀ e, e ∈ evs → EvOK cfg e) (h : run init evs = .ok (st, obs)) (a s b t : Nat) (hc : cfg a s = some (b, t)) :
     (st.created a s b t).length = nPairs a s b t evs ∧
     (st.received b t).length = nGot b t evs obs ∧
@@ -129,46 +132,10 @@ theorem request_yields_n (st st' : State) (a b s t : Nat) (typ : ReqType) (qids 
       simp only [List.mem_map] at he
       obtain ⟨p, _, rfl⟩ := he
       simp [isPair]
-  · -- every observation of a run of `pair` events with create id c is `created e` with that id
-    generalize hev : (qids.zip rnds).map (fun p => Ev.pair a b s t typ (st.nextCreateId a b) p.1 p.2) = evs at h
-    have hall : ∀ e, e ∈ evs → ∃ q r, e = Ev.pair a b s t typ (st.nextCreateId a b) q r := by
-      intro e he
-      rw [← hev] at he
+  · exact run_pairs_obs (fun e he => by
       simp only [List.mem_map] at he
       obtain ⟨p, _, rfl⟩ := he
-      exact ⟨_, _, rfl⟩
-    clear hev hlen c1
-    generalize hst0 : ({ st with nextCreateId := upd2 st.nextCreateId a b (st.nextCreateId a b + 1) } : State) = s0 at h
-    clear hst0
-    induction evs generalizing s0 obs with
-    | nil =>
-      simp only [run, Except.ok.injEq, Prod.mk.injEq] at h
-      intro o ho
-      rw [← h.2] at ho
-      cases ho
-    | cons e es ih =>
-      simp only [run] at h
-      split at h
-      · cases h
-      · rename_i s1 o1 hs1
-        split at h
-        · cases h
-        · rename_i s2 os hr
-          simp only [Except.ok.injEq, Prod.mk.injEq] at h
-          obtain ⟨rfl, rfl⟩ := h
-          intro o ho
-          rcases List.mem_cons.mp ho with rfl | ho
-          · obtain ⟨q, r, rfl⟩ := hall e List.mem_cons_self
-            simp only [step] at hs1
-            split at hs1
-            · rename_i s3 e3 hp
-              simp only [Except.ok.injEq, Prod.mk.injEq] at hs1
-              obtain ⟨p, hsp⟩ := pair_spec hp
-              refine ⟨e3, hs1.2.symm, ?_, ?_⟩
-              · rw [← hsp.info]; exact hsp.ok.cid_c
-              · rw [← hsp.info]; exact hsp.ok.typ_c
-            · cases hs1
-          · exact ih (fun e' he' => hall e' (List.mem_cons_of_mem _ he')) s2 os hr o ho
+      exact ⟨_, _, rfl⟩) h
 
 example : ∃ st obs, doCreate init 0 1 0 0 .M [0, 1, 2] [{ bl := .Y, br := .Y, c1 := true }, {}, { bl := .X }]
     = .ok (st, obs) ∧ obs.length = 3 := ⟨_, _, rfl, rfl⟩
@@ -217,11 +184,6 @@ theorem seq_shared_across_directions :
       (st.received 0 0).map (fun c => (c.1.seq, c.1.dir)) = [(0, 1)] := ⟨_, _, rfl, by decide⟩
 
 /-! ## T08.4  the two delivered halves are one Bell pair -/
-
-def opII : POp := ⟨0, [(false, false), (false, false)]⟩
-def opXX : POp := ⟨0, [(true, false), (true, false)]⟩
-def opZZ : POp := ⟨0, [(false, true), (false, true)]⟩
-def opMinusYY : POp := ⟨2, [(true, true), (true, true)]⟩
 
 /-- Stabilizer level: two fresh qubits, `H` on the first, `CNOT` onto the second give (in the `Stab` model of the
 engine) the generators XX, ZZ, and the group they generate is exactly {II, XX, ZZ, −YY}: the state Phi+. -/
@@ -279,13 +241,19 @@ theorem md_outcome_table (b1 b2 : Basis) (h1 : b1 = .Z ∨ b1 = .X ∨ b1 = .Y) 
     (∀ c1 c2, ∃ o1 o2, mdOutcomes b1 b2 c1 c2 = .ok (o1, o2) ∧ allowedB b1 b2 o1 o2 = true) ∧
     (∀ o1 o2, allowedB b1 b2 o1 o2 = true → ∃ c1 c2, mdOutcomes b1 b2 c1 c2 = .ok (o1, o2)) := by
   rcases h1 with rfl | rfl | rfl <;> rcases h2 with rfl | rfl | rfl <;>
-    exact ⟨by decide, by decide⟩
+    refine ⟨fun c1 c2 => ?_, fun o1 o2 h => ?_⟩
+  all_goals first
+    | (cases c1 <;> cases c2 <;> exact ⟨_, _, rfl, rfl⟩)
+    | (cases o1 <;> cases o2 <;>
+        first
+          | exact absurd h (by decide)
+          | exact ⟨false, false, rfl⟩
+          | exact ⟨true, false, rfl⟩
+          | exact ⟨false, true, rfl⟩
+          | exact ⟨true, true, rfl⟩)
 
 /-- the table is the physics of Phi+: an outcome pair (o1, o2) in bases (P, Q) has probability zero exactly when
-`−(−1)^(o1+o2) P⊗Q` is in the stabilizer group of the pair -/
-def letter : Basis → P1
-  | .X => (true, false) | .Y => (true, true) | _ => (false, true)
-
+`−(−1)^(o1+o2) P⊗Q` is in the stabilizer group of the pair (`letter` maps a basis to its Pauli letter) -/
 theorem md_table_is_phi_plus (b1 b2 : Basis) (h1 : b1 = .Z ∨ b1 = .X ∨ b1 = .Y) (h2 : b2 = .Z ∨ b2 = .X ∨ b2 = .Y)
     (o1 o2 : Bool) :
     allowedB b1 b2 o1 o2 = false ↔ InGroup 2 bellSt.rows ⟨if o1 == o2 then 2 else 0, [letter b1, letter b2]⟩ := by
@@ -327,10 +295,16 @@ theorem basis_weights (p1 p2 : Int) :
 /-- The third weight CAN be negative: the spec (200, 200) — host-controlled entries of the request array —
 reaches `random.choices` as [200, 200, −144].  (Python then never picks Z and picks X with 200/256; no error.
 The pairing and outcome statements above hold for whichever basis is picked.) -/
-theorem basis_weights_three_negative : sampleSpec .XYZ [200, 200] = .ok (.choose [.X, .Y, .Z] [200, 200, -144]) := by
-  decide
+theorem basis_weights_three_negative : sampleSpec .XYZ [200, 200] = .ok (.choose [.X, .Y, .Z] [200, 200, -144]) := rfl
 
-example : sampleSpec .XZ [300, 7] = .ok (.choose [.X, .Z] [44, 212]) := by decide
+/-- so "non-negative weights for every spec" (T08.6 as first drafted) is false for three choices -/
+theorem basis_weights_nonneg_counterexample :
+    ¬ (∀ p1 p2 : Int, ∀ w, weights (reduceSpec [p1, p2]) 3 = .ok w → ∀ x, x ∈ w → 0 ≤ x) := by
+  intro h
+  have := h 200 200 [200, 200, -144] rfl (-144) (by simp)
+  omega
+
+example : sampleSpec .XZ [300, 7] = .ok (.choose [.X, .Z] [44, 212]) := rfl
 
 /-! ## progress of the model, and where the code falls short of it -/
 
